@@ -213,3 +213,19 @@ def corrupt(e, rnd, new_id, base):
     else:
         d.setdefault('R', {})['R3usr'] = [-1, 0]
     return c, kind
+
+
+_BANKS = {16: 'usr', 17: 'fiq', 18: 'irq', 19: 'svc', 22: 'mon', 23: 'abt', 26: 'hyp', 27: 'und', 31: 'usr'}
+
+
+def pre_value(g, e, comp, name=None):
+    """value of a component of the event's pre-state (override or group base) - for tagging only"""
+    base = g.header()['h']['base']
+    if name is None:
+        return e['pre'].get(comp, base[comp])
+    return e['pre'].get(comp, {}).get(name, base[comp][name])
+
+
+def pre_sp(g, e):
+    mode = pre_value(g, e, 'cpsr')[1] & 31
+    return unlimbs(pre_value(g, e, 'R', 'SP' + _BANKS.get(mode, 'usr')))
